@@ -17,13 +17,47 @@ type wrappedCodecRegistry struct {
 	typ   reflect.Type
 	tag   string
 	codec Codec
+	// pending holds the codecs built while the struct codec is still under
+	// construction. They can refer to the incomplete struct codec (that's how
+	// recursive types work), so they must not become visible to other
+	// goroutines until it is complete, and never if construction fails.
+	pending *[]pendingCodec
+}
+
+type pendingCodec struct {
+	typ   reflect.Type
+	tag   string
+	codec Codec
 }
 
 func (w wrappedCodecRegistry) Load(typ reflect.Type, tag string) Codec {
 	if typ == w.typ && tag == w.tag {
 		return w.codec
 	}
+	for _, p := range *w.pending {
+		if p.typ == typ && p.tag == tag {
+			return p.codec
+		}
+	}
 	return w.CodecRegistry.Load(typ, tag)
+}
+
+func (w wrappedCodecRegistry) StoreOrSwap(typ reflect.Type, tag string, c Codec) Codec {
+	for _, p := range *w.pending {
+		if p.typ == typ && p.tag == tag {
+			return p.codec
+		}
+	}
+	*w.pending = append(*w.pending, pendingCodec{typ: typ, tag: tag, codec: c})
+	return c
+}
+
+// publish makes the codecs built along with the struct codec available in the
+// underlying registry. Call it only once the struct codec is complete.
+func (w wrappedCodecRegistry) publish() {
+	for _, p := range *w.pending {
+		w.CodecRegistry.StoreOrSwap(p.typ, p.tag, p.codec)
+	}
 }
 
 func BuildStructCodec(p CodecBuilder, registry CodecRegistry, typ reflect.Type, tag string) (Codec, error) {
@@ -36,7 +70,8 @@ func BuildStructCodec(p CodecBuilder, registry CodecRegistry, typ reflect.Type, 
 		fields: make([]description, typ.NumField()),
 	}
 
-	registry = wrappedCodecRegistry{CodecRegistry: registry, typ: typ, tag: tag, codec: &c}
+	wrapped := wrappedCodecRegistry{CodecRegistry: registry, typ: typ, tag: tag, codec: &c, pending: new([]pendingCodec)}
+	registry = wrapped
 
 	var maxIndex int
 	var count int
@@ -115,6 +150,8 @@ func BuildStructCodec(p CodecBuilder, registry CodecRegistry, typ reflect.Type, 
 			offset: f.offset,
 		}
 	}
+
+	wrapped.publish()
 
 	return &c, nil
 }
